@@ -9,6 +9,8 @@ import FFSM2.Lemmas.NoPlan
 import FFSM2.Lemmas.PrevInv
 import FFSM2.Props.C11
 import FFSM2.Lemmas.ProvWorld
+import FFSM2.Lemmas.CancelTrack
+import FFSM2.Props.C03
 /-!
 # Run-level theorems: the per-call theorems lifted to every history
 
@@ -1211,6 +1213,85 @@ example :
     let r := run cfg beh [.construct 0 false, .update 0]
     (r.2.filterMap fun e => match e with | .cb k _ o => if k.method = .exitGuard then o.pending else none | _ => none)
       = [⟨0, 2, none⟩] := by decide
+
+/-! ### C03 on the event level: vetoes as performed `cancelPendingTransition()` actions -/
+
+/-- the guard rounds of one processing point, each as the list of events it produced -/
+def roundEvs (env : Env) (s : St) : List (List Ev) :=
+  if s.core.request.valid then substRoundEvs (guardRound env) (substFuel env.cfg.L) {} s else []
+
+theorem survivor_all_cancelled (cur : Tr) (rounds : List (Tr × Bool)) (h : ∀ r ∈ rounds, r.2 = true) : survivor cur rounds = cur := by
+  induction rounds generalizing cur with
+  | nil => rfl
+  | cons r rs ih =>
+    simp only [survivor, List.foldl_cons, h r (by simp), if_true]
+    exact ih cur (fun x hx => h x (by simp [hx]))
+
+theorem rounds_flags (env : Env) (s : St) : (processRounds env s).map (·.2) = (roundEvs env s).map hasCancel := by
+  unfold processRounds roundEvs
+  split
+  · exact (substLoop_rounds (guardRound env) (guardRound_cancelled env) _ _ _).2
+  · rfl
+
+/-- **C03 on what user code does**: (a) if in every guard round of a processing point some guard performed
+    `cancelPendingTransition()`, nothing is applied — no lifecycle callback, same active state; (b) if the
+    active state changed, some round ran without any performed cancellation, and the new active state is the
+    destination that round was asked about -/
+theorem C03_veto_on_events (env : Env) (s : St) :
+    ((∀ es ∈ roundEvs env s, hasCancel es = true) →
+        (processRequest env s).1.core.active = s.core.active ∧ sig (processRequest env s).2 = []) ∧
+    ((processRequest env s).1.core.active ≠ s.core.active →
+        ∃ k, ∃ hk : k < (processRounds env s).length, ∃ hk' : k < (roundEvs env s).length,
+          hasCancel ((roundEvs env s)[k]) = false ∧ (processRequest env s).1.core.active = ((processRounds env s)[k]).1.dest) := by
+  have hspec := processRequest_spec env s
+  have hflags := rounds_flags env s
+  have hlen : (processRounds env s).length = (roundEvs env s).length := by
+    have := congrArg List.length hflags; simpa using this
+  have hk_flag : ∀ k (hk : k < (processRounds env s).length) (hk' : k < (roundEvs env s).length),
+      ((processRounds env s)[k]).2 = hasCancel ((roundEvs env s)[k]) := by
+    intro k hk hk'
+    have h1 : ((processRounds env s).map (·.2))[k]'(by simpa using hk) = ((processRounds env s)[k]).2 := by simp
+    have h2 : ((roundEvs env s).map hasCancel)[k]'(by simpa using hk') = hasCancel ((roundEvs env s)[k]) := by simp
+    rw [← h1, ← h2]
+    congr 1
+  constructor
+  · intro hall
+    have hr : ∀ r ∈ processRounds env s, r.2 = true := by
+      intro r hr
+      obtain ⟨k, hk, rfl⟩ := List.getElem_of_mem hr
+      rw [hk_flag k hk (by omega)]
+      exact hall _ (List.getElem_mem _)
+    have hsv : survivor {} (processRounds env s) = {} := survivor_all_cancelled _ _ hr
+    have hinv : (survivor {} (processRounds env s)).valid = false := by rw [hsv]; rfl
+    exact hspec.2.2.2.1 hinv
+  · intro hne
+    rcases C03_veto_respected {} (processRounds env s) with e | ⟨r, hr, hr2, e⟩
+    · have hinv : (survivor {} (processRounds env s)).valid = false := by rw [e]; rfl
+      exact absurd (hspec.2.2.2.1 hinv).1 hne
+    · obtain ⟨k, hk, rfl⟩ := List.getElem_of_mem hr
+      have hv : (survivor {} (processRounds env s)).valid = true := by
+        cases hv : (survivor {} (processRounds env s)).valid
+        · exact absurd (hspec.2.2.2.1 hv).1 hne
+        · rfl
+      refine ⟨k, hk, by omega, ?_, ?_⟩
+      · rw [← hk_flag k hk (by omega)]; exact hr2
+      · rw [(hspec.2.2.2.2 hv).1, e]
+
+/-- **C03 over whole histories**: `immediateChangeTo(d)` from any world: if some guard performed a
+    cancellation in every round the call evaluated, the instance's active state is what it was and the call ran
+    no `enter` / `exit` / `reenter` -/
+theorem C03_history_vetoed_call (cfg : Cfg) (beh : Beh) (w : World) (k i d : Nat) (c : Core) (hg : w.get i = some c)
+    (hall : ∀ es ∈ roundEvs ⟨cfg, beh, i, k⟩ (extChange ⟨cfg, beh, i, k⟩ d none { core := c }).1, hasCancel es = true) :
+    actOf ((stepAll cfg beh w k (.immediateChangeTo i d)).1.get i) = c.active ∧
+    sig (stepAll cfg beh w k (.immediateChangeTo i d)).2 = [] := by
+  simp only [stepAll, step, Op.inst, Op.name, hg]
+  split
+  · have h := (C03_veto_on_events ⟨cfg, beh, i, k⟩ (extChange ⟨cfg, beh, i, k⟩ d none { core := c }).1).1 hall
+    rw [onCore_fst, onCore_snd, World.get_put_same, sig_append, sig_api, List.append_nil, sig_seq]
+    refine ⟨h.1, ?_⟩
+    rw [h.2, List.append_nil]
+    exact sig_logEv _ _ _
+  · exact ⟨by rw [hg]; rfl, rfl⟩
 
 /-- non-vacuity: two instances interleaved, a copy, a vetoed request; instance 0's path is paired and the
     hypotheses of `C01_history` hold for it -/
